@@ -9,6 +9,8 @@
  *                6 stack painted with the 8-byte value `count` of the upcoming call
  *                7 heap residue: freed blocks of the sizes the library uses, filled with `count`
  *                8 heap residue: mallopt(M_PERTURB) + destination buffers pre-filled with 0xFF
+ *                9 buffer reuse: the same call is first made on a look-alike input (same addresses, same
+ *                  count, same first and last element, different interior) placed in the very same buffers
  *   --p1 1: print one CALLDIG line per call (used by the orchestrator to name a diverging call)
  */
 #include "codecs.h"
@@ -89,6 +91,28 @@ static uint64_t do_call(uint64_t ci) {
         memset(&info, 0, sizeof info);
         g_ctx = c->encname;
         snprintf(g_sub, sizeof g_sub, "call %" PRIu64 " codec=%s n=%zu model=%s world=%d", ci, c->name, n, AM_NAMES[model], WORLD);
+        if (WORLD == 9 && n >= 3 && c->domain != DOM_STRICT16) {
+            /* look-alike decoy in the same buffers: same count, first and last element */
+            uint64_t *real = malloc(n * 8);
+            memcpy(real, a, n * 8);
+            for (size_t i = 1; i + 1 < n; i++) a[i] = (c->domain == DOM_SORTED || c->domain == DOM_SIGNED_DELTA) ? a[0] : a[n - 1 - i];
+            if (c->domain == DOM_SIGNED_DELTA) a[n - 1] = a[0];
+            encinfo_t dinfo;
+            memset(&dinfo, 0, sizeof dinfo);
+            size_t dret = c->encode(dst, a, n, &dinfo);
+            if (dret && dret <= scratch_size(n)) {
+                uint64_t *dout = malloc((n + 1) * 8);
+                c->decode(dst, dret, &dinfo, dout, n);
+                if (c->getat) {
+                    uint64_t v;
+                    c->getat(dst, dret, &dinfo, n, n / 2, &v);
+                }
+                free(dout);
+            }
+            memcpy(a, real, n * 8); /* the real input, edited in place */
+            memset(dst, 0, scratch_size(n));
+            free(real);
+        }
         PAINT();
         size_t ret = c->encode(dst, a, n, &info);
         digest_u64(&d, ret);
@@ -200,6 +224,17 @@ static uint64_t do_call(uint64_t ci) {
         case 4: { /* adaptive analysis */
             varintAdaptiveDataStats st;
             g_ctx = "varintAdaptiveAnalyze";
+            if (WORLD == 9 && n >= 3) {
+                uint64_t *real = malloc(n * 8);
+                memcpy(real, a, n * 8);
+                for (size_t i = 1; i + 1 < n; i++) a[i] = a[n - 1 - i] ^ 1;
+                varintAdaptiveAnalyze(a, n, &st);
+                uint8_t *dd = malloc(scratch_size(n));
+                varintAdaptiveEncode(dd, a, n, NULL);
+                free(dd);
+                memcpy(a, real, n * 8);
+                free(real);
+            }
             PAINT();
             varintAdaptiveAnalyze(a, n, &st);
             dig_stats(&d, &st);
